@@ -40,7 +40,14 @@ func loadCase(path string) (*target, []byte, caseFile, error) {
 		if !ok {
 			return nil, nil, cf, fmt.Errorf("cannot derive the target from file name %q", base)
 		}
-		cf = caseFile{Target: tn, Hex: hex.EncodeToString([]byte(s))}
+		b := []byte(s)
+		if len(b) > maxInput {
+			b = b[:maxInput]
+		}
+		if tg := targets[tn]; tg != nil {
+			b = steerFuzz(tg, b) // what the fuzz worker executed for this corpus entry
+		}
+		cf = caseFile{Target: tn, Hex: hex.EncodeToString(b)}
 	} else if err := json.Unmarshal(raw, &cf); err != nil {
 		return nil, nil, cf, err
 	}
